@@ -104,6 +104,10 @@ def shard(p):
             for r_, m_ in zip(reqs, meta):
                 if rng.random() < 0.03:
                     e = rng.choice(["%s NOT", "OR %s", "%s AND AND x", "NOT %s", "%s OR", "%s radius OR", "NOT NOT %s", "%s mass NOT"]) % rng.choice(ws)
+                    if rng.random() < 0.5:
+                        # ... spelled with runs of blanks / tabs / the build's other blank characters, like the judged phrases (seed C16-k:
+                        # only irregularly spaced phrases go through the buffer that a refusal leaves dirty)
+                        e = e.replace(" ", rng.choice(["  ", "\t", " \t ", "   "] + [b_ + " " for b_ in BLANKS if b_ not in (" ", "\t")][:4]))
                     nr.append({"op": "query", "q": e, "describe": True})
                     nm.append((None, e, False))
                     acc.count("refused_phrases_between_lookups")
